@@ -219,6 +219,45 @@ def run(sc, tier, replay_file):
             mach.append("frames %s: the recorded Write calls are refused by SubscriptionFramesTrace although the client read intact frames: %s" % (fr_["mode"], fr_["trace"]))
     log("frames: %s" % fstat)
 
+    # ---------------------------------------------------------------- direction B: perturbed stress
+    sout = sc.path("stress.ndjson")
+    nstress = 12000 if thorough else 1200
+    r = vlib.run([binary, "stress", "-seed", str(vlib.seed()), "-runs", str(nstress), "-out", sout, "-workers", "16"], timeout=3000)
+    if r.timed_out or r.returncode != 0:
+        raise vlib.MachineryError("stress driver failed: %s" % r.stderr[-2000:])
+    sstat = {"runs": 0, "ok": 0, "conns": 0, "subs": 0, "emitted": 0, "frames": 0, "skipped": 0}
+    for line in open(sout):
+        o = json.loads(line)
+        if "skippedRest" in o:
+            sstat["skipped"] += o["skippedRest"]
+            continue
+        if "harnessError" in o:
+            raise vlib.MachineryError(o["harnessError"])
+        sstat["runs"] += 1
+        rep = {"mode": "stress", "seed": o.get("seed"), "id": o.get("id"), "actions": o.get("actions")}
+        if "crash" in o:
+            if not o.get("inRepo"):
+                raise vlib.MachineryError("the stress harness died: %s at %s\n%s" % (o["crash"], o["where"], o["stderr"][:1500]))
+            V.violation("crash:%s@%s" % (o["crash"].replace("panic: ", "").replace("fatal error: ", ""), o["where"]),
+                        "the gateway process died (%s in %s) during free run %s" % (o["crash"], o["where"], o["id"]), dict(rep, stderr=o["stderr"][:3000]))
+            continue
+        for f in ("conns", "subs", "emitted", "frames"):
+            sstat[f] += o.get(f, 0)
+        if o.get("deviation"):
+            mach.append("stress %s: %s" % (o["id"], o["deviation"]))
+        elif o.get("badFrames"):
+            kind = "frames:" + ("not-stitched" if "not stitched" in o["badFrames"][0] else "not-a-prefix" if "prefix" in o["badFrames"][0] else
+                                "unknown-id" if "never started" in o["badFrames"][0] else "malformed")
+            V.violation(kind, "free run %s: %s\n   actions: %s" % (o["id"], o["badFrames"][:2], o["actions"]), dict(rep, result=o))
+        elif o.get("leak") or o.get("upOpenN"):
+            roles = "+".join(sorted(set(o.get("leak") or []))) or "-"
+            V.violation("leak:%s%s" % (roles, ":upstream-open" if o.get("upOpenN") else ""),
+                        "free run %s: after every client had gone, left behind: goroutines %s, %d upstream connection(s) open\n   actions: %s" % (
+                            o["id"], o.get("leak"), o.get("upOpenN", 0), o["actions"]), dict(rep, result=o))
+        else:
+            sstat["ok"] += 1
+    log("direction B (stress): %s" % sstat)
+
     # ---------------------------------------------------------------- negative controls
     # 1. a behaviour the model does not have must be reported as not followed by the code
     base = next(c for c in cases if len(c["steps"]) >= 6 and c["init"][3] is False)
@@ -250,15 +289,15 @@ def run(sc, tier, replay_file):
         "traces_validated_against_impl": counts["ok"],
         "samples": [{"direction": "A", "history": history(sample)}],
         "design_level": design, "direction_A": dict(gstat, results=counts, actions_exercised=acts),
-        "frames": fstat, "negative_controls_rejected": 2,
-        "evaluations": len(cases) + len(frames),
+        "frames": fstat, "negative_controls_rejected": 2, "direction_B_stress": sstat,
+        "evaluations": len(cases) + len(frames) + sstat["runs"],
         "distinct_nontrivial": len({json.dumps(history(c)) for c in cases if len(c["init"][1]) + len(c["init"][2]) > 0}),
         "rule": "maximal behaviours of SubscriptionImpl (Forceable) over 9 client scripts x 10 upstream scripts x {start succeeds, upstream handshake fails}; "
                 "non-trivial = the client or the upstream does something; distinct by full action history",
         "exhaustive": False, "edge_cover_complete": gstat["edge_cover_complete"],
         "known_findings_hit": sorted(V.hit_known), "notes": V.notes, "repo_head": vlib.repo_head(),
     }, time.time() - t0, violations=len(V.violations), assumptions=[
-        "one subscription per connection in the forced behaviours (several per connection: frames mode and C17's free runs)",
+        "one subscription per connection in the forced behaviours; several connections and subscriptions in the free-running stress (seeded delays at the hook points, nothing forced)",
         "the client's abrupt disconnect is a TCP reset: the gateway's reads and writes fail from then on",
         "the select between a ready upstream event and a closed closeCh cannot be forced; the model shows the states reached are the same",
         "a goroutine counts as left behind if it still runs repository code 400 ms after every gate was opened",
